@@ -242,11 +242,9 @@ impl<'a> Gen<'a> {
             let op = if self.r.chance(1, 2) { '+' } else { '-' };
             // the number token of the parser is the maximal run of [0-9,.-]: keep a blank or a
             // commodity between a number and a following `-`
-            let mut l = self.sp0();
+            let l = self.sp0();
             if op == '-' && l.is_empty() && s.ends_with(|c: char| c.is_ascii_digit() || c == '.' || c == ',') {
-                if self.extend_doc_gap("minus-after-digit") {
-                    l = " ".into();
-                }
+                self.tag("minus-right-after-number");
             }
             s.push_str(&l);
             s.push(op);
@@ -254,11 +252,6 @@ impl<'a> Gen<'a> {
             s.push_str(&self.mul_expr(depth));
         }
         s
-    }
-    /// documented text the parser is known not to read (a finding): generate it only in the
-    /// finding stream; returns true when the caller must avoid it
-    fn extend_doc_gap(&mut self, _t: &'static str) -> bool {
-        true
     }
     fn mul_expr(&mut self, depth: u32) -> String {
         let mut s = self.unary_expr(depth);
@@ -443,6 +436,10 @@ impl<'a> Gen<'a> {
             if self.r.chance(1, 2) {
                 note = format!("bought {}", note);
             }
+            if self.r.chance(1, 8) {
+                self.tag("empty-lot-note");
+                note = String::new();
+            }
             parts.push(format!("({})", note));
         }
         self.r.shuffle(&mut parts);
@@ -530,9 +527,11 @@ impl<'a> Gen<'a> {
                 let p = if self.r.chance(1, 8) {
                     self.tag("random-payee");
                     let ok = |c: char| !"\r\n;".contains(c) && !c.is_control();
-                    let first_ok = |c: char| !"\r\n;(*! \t".contains(c) && !c.is_control() && !c.is_whitespace();
                     let mut p = String::new();
-                    p.push(self.rand_char(&first_ok));
+                    if self.r.chance(1, 4) {
+                        self.tag("payee-starting-like-code-or-state");
+                        p.push(*self.r.pick(&['(', '*', '!', ')']));
+                    }
                     p.push_str(&self.rand_word(&ok, 10));
                     p
                 } else {
@@ -546,9 +545,8 @@ impl<'a> Gen<'a> {
         }
         let mut lines = Vec::new();
         if self.r.chance(1, 4) {
-            // metadata on the header line needs the sp+ of the note (a finding otherwise)
             if !has_note {
-                h.push_str(&self.sp1());
+                self.tag("header-metadata-right-after-date");
             }
             h.push_str(&self.metadata());
         }
